@@ -3,7 +3,7 @@
 From AV.Model Require Import Base Bytes Vec Ops Interp.
 From AV.Spec Require Import VecSpec.
 From AV.Proofs Require Import MemLemmas Rep VecProofs TempProofs RangeProofs CapProofs CloneProofs NoFault HandleProofs.
-From AV.Proofs Require Import FaultProofs LazySplice.
+From AV.Proofs Require Import FaultProofs LazySplice TypeProofs.
 From WIP Require Import WorldSpec WorldCore WorldSplice WorldRead.
 Arguments N.add : simpl never.
 Arguments N.sub : simpl never.
@@ -13,13 +13,52 @@ Arguments N.mul : simpl never.
 
 Lemma exec_withcap c w st dst bk n r :
   cfg_wf c -> WRep c w st -> ufuse (wuw w) = None ->
-  (if resizable bk then sp_new c st (unext (wuw w)) dst bk else None) = Some r ->
+  (if resizable bk then
+     if layout_limit c bk <? c_sz c * n
+     then Some (panic_res (if usize_max <? c_sz c * n then POverflow else PLayout) [] st (unext (wuw w)))
+     else sp_new c st (unext (wuw w)) dst bk
+   else None) = Some r ->
   adm_withcap c bk n ->
   res_matches c w (exec c (OWithCapacity dst bk n) w) r.
 Proof.
-  intros Hwf HW Hfuse Hr (Hbw & Hmax & Hlim).
+  intros Hwf HW Hfuse Hr (Hbw & Hmax & Hlim0).
   destruct (resizable bk) eqn:Hrz; [|discriminate].
   set (v0 := {| vlen := 0; vcap := 0; vmem := []; vgen := 0; vbk := bk |}).
+  destruct (N.ltb_spec (layout_limit c bk) (c_sz c * n)) as [Hbig|Hsmall].
+  { (* refused before anything is allocated: the fresh storage object is dropped by the unwinding, the slot keeps
+       what it held *)
+    injection Hr as <-.
+    assert (Hll : alloc_limit <= layout_limit c bk).
+    { destruct Hwf as [_ Hal]. unfold layout_limit. destruct bk; unfold alloc_limit, isize_max in *; lia. }
+    assert (Hc0 : match bk with BReloc c0 => c_sz c * c0 <= alloc_limit | _ => True end).
+    { destruct Hlim0 as [H|[_ H]]; [|exact H]. destruct bk; try exact I. nia. }
+    pose proof (new_vi c bk v0 (wuw w) Hbw) as Hn.
+    assert (Hb : exists v1 u1, mem_build c bk (v0, wuw w) = Ok tt (v1, u1) /\ same_user (wuw w) u1 /\ vbk v1 = bk /\
+                               c_sz c * vcap v1 <= alloc_limit).
+    { destruct bk as [|size|k size| |c0]; try discriminate; destruct Hn as (v1 & u1 & E & HV & Hsu);
+        exists v1, u1; (split; [exact E|]); (split; [exact Hsu|]); (split; [exact (vi_bk _ _ _ HV)|]);
+        unfold mem_build, bind, emitv, setv in E; cbn in E; injection E as <- _; cbn [vcap]; lia. }
+    destruct Hb as (v1 & u1 & E1 & Hsu1 & Hbk1 & Hcap1).
+    assert (Hres : resizable_backend (vbk v1)).
+    { rewrite Hbk1. destruct bk; try discriminate; [left; reflexivity|right; eexists; reflexivity]. }
+    rewrite <- Hbk1 in Hbig.
+    destruct (mem_resize_layout_panic c v1 u1 n Hwf Hres Hcap1 Hbig) as (u2 & E2 & Hsu2).
+    destruct (mem_drop_ok c v1 u2) as (v3 & u3 & E3 & _ & Hn3 & Hf3 & He3).
+    destruct (same_user_events _ _ Hsu1) as (He1 & Hn1 & Hf1). destruct (same_user_events _ _ Hsu2) as (He2 & Hn2 & Hf2).
+    assert (Hfu2 : ufuse u2 = None) by congruence.
+    assert (Eq : quiet_st (mem_drop c) (v1, u2) = Ok tt (v3, u3)).
+    { apply TypeProofs.quiet_st_none; [exact Hfu2|exact E3|congruence]. }
+    cbn [exec]. fold v0. unfold bind at 1. rewrite E1.
+    unfold unwinding_st, on_unwind. rewrite E2, Eq.
+    cbn [res_matches panic_res s_out s_pk s_ret s_st s_evs s_nx].
+    split; [reflexivity|split; [reflexivity|split; [reflexivity|]]]. rewrite N.sub_diag.
+    constructor.
+    - apply (wrep_wv c w _ st eq_refl HW).
+    - cbn [wuw]. lia.
+    - cbn [wuw]. congruence.
+    - cbn [wuw rev app]. congruence. }
+  assert (Hlim : match bk with BReloc c0 => c_sz c * N.max n c0 <= alloc_limit | _ => c_sz c * n <= alloc_limit end).
+  { destruct Hlim0 as [H|[H _]]; [exact H|lia]. }
   assert (Hb : exists v1 u1, mem_build c bk (v0, wuw w) = Ok tt (v1, u1) /\ VI c v1 {| a_bk := bk; a_xs := [] |} /\
                              same_user (wuw w) u1 /\ vcap v1 = match bk with BReloc c0 => c0 | _ => 0 end).
   { pose proof (new_vi c bk v0 (wuw w) Hbw) as Hn.
